@@ -32,9 +32,19 @@ Definition parse_op14 (s : str) : option op :=
   | [70] => Some OFirst                          (* F *)
   | [76] => Some OLast                           (* L *)
   | 71 :: r => option_map OGet (hexnat r)        (* G<idx> *)
-  | [83; 48] => Some (OStore false)              (* S0 *)
-  | [83; 49] => Some (OStore true)               (* S1 *)
+  | [83; 48] => Some (OStore false 0 1)          (* S0 *)
+  | [83; 49] => Some (OStore true 0 1)           (* S1 *)
+  | 83 :: sl :: 95 :: r =>                       (* S<seal>_<tag>_<n> *)
+      match split_on 95 r with
+      | [tg; n] => match hexnat tg, hexnat n with
+                   | Some tg, Some (S n) => if sl =? 48 then Some (OStore false tg (S n))
+                                            else if sl =? 49 then Some (OStore true tg (S n)) else None
+                   | _, _ => None
+                   end
+      | _ => None
+      end
   | 68 :: r => option_map ODelete (hexnat r)     (* D<n> *)
+  | 84 :: r => option_map OTrunc (hexnat r)      (* T<n> *)
   | [75] => Some OSet                            (* K *)
   | [107] => Some OGetS                          (* k *)
   | [88] => Some OClose                          (* X *)
@@ -199,9 +209,11 @@ Definition run_c14 (ts : list str) : str :=
   end.
 
 Definition k_c14 : str := [99; 49; 52].   (* c14 *)
+Definition k_c06 : str := [99; 48; 54].   (* c06 *)
 
+(* both scenarios run the same model; the tag only selects the harness oracles *)
 Definition run_sched (ts : list str) : str :=
   match ts with
-  | sc :: rest => if str_eqb sc k_c14 then run_c14 rest else s_bad
+  | sc :: rest => if str_eqb sc k_c14 || str_eqb sc k_c06 then run_c14 rest else s_bad
   | [] => s_bad
   end.
